@@ -254,14 +254,23 @@ func vfC16(in map[string]any) map[string]any {
 	base := time.Date(2026, 1, 1, 0, 0, 0, 0, time.UTC)
 	at := func(x int) time.Time { return base.Add(time.Duration(x) * unit) }
 	dep := vfBool(in, "deprecated", true)
+	// "tick": the clock advances by that much on every reading within one Apply (a real clock never stands still);
+	// the number of readings per Apply is reported so that the requirement can ask for one consistent reading.
 	var now time.Time
+	tick := time.Duration(vfInt(in, "tick", 0)) * unit
+	calls := 0
+	clock := func() time.Time {
+		t := now.Add(time.Duration(calls) * tick)
+		calls++
+		return t
+	}
 	p := &Prefix{Prefix: netip.MustParsePrefix("2001:db8::/64"), OnLink: true, Autonomous: true,
 		ValidLifetime: time.Duration(vfInt(in, "valid", 0)) * unit, PreferredLifetime: time.Duration(vfInt(in, "pref", 0)) * unit,
-		Deprecated: dep, Epoch: at(vfInt(in, "epoch", 0)), TimeNow: func() time.Time { return now }}
+		Deprecated: dep, Epoch: at(vfInt(in, "epoch", 0)), TimeNow: clock}
 	r := &Route{Prefix: netip.MustParsePrefix("2001:db8:1::/48"), Preference: ndp.Medium,
 		Lifetime: time.Duration(vfInt(in, "rl", 0)) * unit, Deprecated: dep, Epoch: at(vfInt(in, "epoch", 0)),
-		TimeNow: func() time.Time { return now }}
-	var lts []any
+		TimeNow: clock}
+	var lts, ncalls []any
 	for _, x := range vfList(in, "reads") {
 		tt := 0
 		switch n := x.(type) {
@@ -273,8 +282,12 @@ func vfC16(in map[string]any) map[string]any {
 		}
 		now = at(tt)
 		ra := &ndp.RouterAdvertisement{}
+		calls = 0
 		_ = p.Apply(ra)
+		pc := calls
+		calls = 0
 		_ = r.Apply(ra)
+		ncalls = append(ncalls, []any{pc, calls})
 		row := []any{-1, -1, -1}
 		for _, o := range ra.Options {
 			switch o := o.(type) {
@@ -289,5 +302,5 @@ func vfC16(in map[string]any) map[string]any {
 		}
 		lts = append(lts, row)
 	}
-	return map[string]any{"lifetimes": lts}
+	return map[string]any{"lifetimes": lts, "calls": ncalls}
 }
